@@ -110,7 +110,7 @@ _REAL = {k: getattr(_time_mod, k) for k in ('gmtime', 'strftime', 'asctime', 'ti
 PROC = {}       # simulated /proc files of this process
 
 
-def patch_process_clock(clock, host='simhost', pid=None, cpus=None, mem_pages=None):
+def patch_process_clock(clock, host='simhost', pid=None, cpus=None, mem_pages=None, numeric_locale=None):
     """Inside a simulated child process every clock a program could read is
     the simulated one: the `time` module functions and datetime.now()/today()
     are replaced process-wide (the harness itself does not read clocks in
@@ -146,6 +146,29 @@ def patch_process_clock(clock, host='simhost', pid=None, cpus=None, mem_pages=No
     dtm.date = SimDate
     socket.gethostname = lambda: host
     platform.node = lambda: host
+    if numeric_locale:
+        # only C locales are installed in the sandbox: simulate the user's
+        # locale at the level of the `locale` module (setlocale accepts it,
+        # localeconv answers for it; format_string/str/atof build on that)
+        import locale
+        conv = dict(locale.localeconv())
+        if numeric_locale.startswith(('de', 'fr', 'tr')):
+            conv.update(decimal_point=',', thousands_sep='.', grouping=[3, 3, 0])
+        current = {'v': 'C'}
+
+        def sim_setlocale(category, value=None):
+            if value is None:
+                return current['v']
+            current['v'] = numeric_locale if value == '' else value
+            return current['v']
+
+        def sim_localeconv():
+            return dict(conv) if current['v'] not in ('C', 'POSIX', 'C.UTF-8', 'C.utf8') else dict(locale_c)
+        locale_c = dict(locale.localeconv())
+        locale.setlocale = sim_setlocale
+        locale.localeconv = sim_localeconv
+        locale.getlocale = lambda category=None: (current['v'].split('.')[0], 'UTF-8')
+        fired('locale_simulated')
     if mem_pages:
         # how much memory the machine has free right now is a property of
         # the moment; programs ask through os.sysconf, resource or /proc
